@@ -45,6 +45,15 @@ def generate(rng, tier):
                   'gb.btn 0 %d 1' % rng.randrange(8), 'gb.frames 0 1', 'gb.obs 0']
         cases.append(('fr%d' % n, lines))
         n += 1
+    # the timer overflow is requested whatever the CPU's master enable: DI; JR -2 with the timer running
+    for rep in range(2 if tier == 'quick' else 8):
+        lines = ['gb.newloop 0 0 0 0']
+        for i, b in enumerate([0xf3, 0x18, 0xfe]):
+            lines.append('gb.w 0 %d %d' % (0xc000 + i, b))
+        lines += ['gb.set 0 1 2 3 4 5 0 6 7 57343 49152', 'gb.w 0 65287 %d' % rng.choice([5, 6, 7]), 'gb.w 0 65285 %d' % rng.randrange(200, 256),
+                  'gb.w 0 65295 0', 'gb.cyc 0 %d' % rng.randrange(2, 40), 'gb.obs 0', 'gb.w 0 65295 0', 'gb.frames 0 1', 'gb.obs 0', 'gb.r 0 65295']
+        cases.append(('fr%d' % n, lines))
+        n += 1
     from props import sysgen as _sg
     for rep in range(2 if tier == 'quick' else 12):
         cases.append(('fr%d' % n, _sg.key_case(rng, [0x10, 0x00, 0x3c, 0x18, 0xfd], n_events=4) + ['gb.frames 0 1', 'gb.obs 0']))
